@@ -409,6 +409,16 @@ func gRoutes(p gProg, abs func(string) string) []gRoute {
 	return out
 }
 
+// gSimReqs is the program as the pipeline simulator sees it.
+func gSimReqs(p gProg) []simReq {
+	rts := gRoutes(p, (&gCase{Prog: p}).abs("/R"))
+	reqs := make([]simReq, len(rts))
+	for i := range rts {
+		reqs[i] = rts[i].Sim
+	}
+	return reqs
+}
+
 // ---- request server: instrumented handlers over a virtual tree ----
 
 type gInfo struct {
